@@ -25,14 +25,15 @@ CONSTANTS T, H, Slack, NClients
 
 TraceLog == ndJsonDeserialize("trace.ndjson")
 
-VARIABLES l, s0, s1, gone
+VARIABLES l, s0, s1, gone, repl
 \* s0[a], s1[a]: start/end of the latest touch of client a (-1: never touched); gone[a]: its queue was seen closed
-vars == <<l, s0, s1, gone>>
+\* repl[a]: some touch of a legitimately returned a new queue (the client had been idle for T)
+vars == <<l, s0, s1, gone, repl>>
 Clients == 0..(NClients - 1)
 Ev == TraceLog[l]
 Is(name) == l <= Len(TraceLog) /\ Ev.ev = name
 
-Init == l = 1 /\ s0 = [a \in Clients |-> -1] /\ s1 = [a \in Clients |-> -1] /\ gone = [a \in Clients |-> FALSE] /\ TLCSet(1, 1)
+Init == l = 1 /\ s0 = [a \in Clients |-> -1] /\ s1 = [a \in Clients |-> -1] /\ gone = [a \in Clients |-> FALSE] /\ repl = [a \in Clients |-> FALSE] /\ TLCSet(1, 1)
 
 Touch ==
   /\ Is("touch") /\ ~gone[Ev.a]
@@ -40,18 +41,20 @@ Touch ==
      \/ Ev.same                             \* the record was kept
      \/ Ev.t1 - s0[Ev.a] >= T               \* or it may have been discarded: it had been idle for T
   /\ s0' = [s0 EXCEPT ![Ev.a] = Ev.t0] /\ s1' = [s1 EXCEPT ![Ev.a] = Ev.t1]
+  /\ repl' = [repl EXCEPT ![Ev.a] = @ \/ (s0[Ev.a] # -1 /\ ~Ev.same)]
   /\ l' = l + 1 /\ UNCHANGED gone
 
-Kept ==      \* every touch of this run follows the previous one within T: the packet must still be queued
-  /\ Is("kept") /\ Ev.n = 1
-  /\ l' = l + 1 /\ UNCHANGED <<s0, s1, gone>>
+Kept ==      \* the packet queued at the first touch must still be there, unless the queue was
+             \* legitimately replaced (a gap of T or more between two touches, e.g. a stalled test)
+  /\ Is("kept") /\ (Ev.n = 1 \/ repl[Ev.a])
+  /\ l' = l + 1 /\ UNCHANGED <<s0, s1, gone, repl>>
 
 Closed ==
   /\ Is("closed") /\ ~gone[Ev.a] /\ s0[Ev.a] # -1
   /\ Ev.t - s0[Ev.a] >= T                   \* NeverDiscardEarly
   /\ Ev.t - s1[Ev.a] <= T + H + Slack       \* SweptInTime (+ allowance)
   /\ gone' = [gone EXCEPT ![Ev.a] = TRUE]
-  /\ l' = l + 1 /\ UNCHANGED <<s0, s1>>
+  /\ l' = l + 1 /\ UNCHANGED <<s0, s1, repl>>
 
 \* open{a,t} has no action: a queue still open after the watcher's patience is never explained.
 
